@@ -85,7 +85,57 @@ def rule_fields(crate, prop, tier):
                 okc = len(lits) == 1 and all(op[0] == "call" and op[1] == "core::clone::Clone::clone" and op[3][0][0] == "at"
                                              and op[3][0][1] == "A1." + f for f, op in zip(fields, lits[0][3]))
                 o.check(okc, prog.pretty[paths[0]], "clone-fieldwise", "clone() does not clone every field of self into the same field", prog.fns[paths[0]]["span"])
+    # canonical storage: every AdjacencyMatrix value has exactly div_ceil(order * order, 64) words (an extra or missing
+    # zero word would make equal digraphs compare / hash differently)
+    AM = "graaf::repr::adjacency_matrix::AdjacencyMatrix"
+    if AM in prog.adts:
+        tmpl = [t for t in crate.inv.len_templates(AM) if t[0] == ("blocks",) and t[1] == "order"]
+        okc = False
+        for fp, g, kind, tm in tmpl:
+            if tm[0] == "call" and tm[1] == "usize::div_ceil" and tm[3][1] == ("const", "usize", 64):
+                sq = tm[3][0]
+                okc = sq == ("field", ("dc", ("call", "usize::checked_mul", (), (("HOLE",), ("HOLE",))), "Some"), "0") or \
+                    sq == ("bin", "Mul", ("HOLE",), ("HOLE",))
+        o.check(okc, AM, "canonical-length:blocks", "the construction sites of AdjacencyMatrix do not all give `blocks` exactly "
+                "div_ceil(order * order, 64) words: the same digraph can have two different representations", prog.adts[AM]["span"])
+    # == / hash / cmp agree: a hand-written impl next to derived ones must itself be field-wise
+    for S in REPR:
+        ims = {tr: [im for im in prog.impls if im["trait"] == tr and im["self"].get("path") == S] for tr in DERIVES}
+        derived = {tr: bool(v and v[0].get("derived")) for tr, v in ims.items()}
+        if any(derived.values()) and not all(derived[tr] for tr in ("core::cmp::PartialEq", "core::cmp::Ord", "core::hash::Hash", "core::cmp::PartialOrd")):
+            for tr in ("core::cmp::PartialEq", "core::cmp::Ord", "core::hash::Hash"):
+                if derived.get(tr) or not ims[tr]:
+                    continue
+                mname = DERIVES[tr]
+                paths = [it["path"] for it in ims[tr][0]["items"] if it["name"] == mname]
+                if not paths or paths[0] not in prog.fns:
+                    continue
+                fw = fieldwise(crate, paths[0], S, mname)
+                o.check(fw, prog.pretty[paths[0]], "fieldwise:" + mname, "%s is hand-written and does not compare / hash exactly the fields, while "
+                        "other comparison traits of %s are derived field-wise: `a == b`, `a.cmp(&b) == Equal` and equal hashes can disagree"
+                        % (mname, S.split("::")[-1]), prog.fns[paths[0]]["span"])
     return o.report(floors={"representation structs": (o.instances, 5)})
+
+
+def fieldwise(crate, path, S, mname):
+    """the hand-written eq / cmp / hash touches the operands only through their fields: every call that receives
+    (part of) an operand receives a field of it, never the whole digraph (which would go through an accessor)"""
+    an = crate.an(path)
+    fam = [path] + list(crate.prog.children.get(path, []))
+    for q in fam:
+        qa = crate.an(q)
+        for ev in qa.events:
+            if ev["k"] != "call" or not ev["args"]:
+                continue
+            for a in ev["args"]:
+                r = a[1] if a[0] in ("at", "addr") else qa.region_of_pointer(a) if a[0] in ("arg", "mem") else None
+                if q == path and r in (("A1",) if mname in ("hash", "clone") else ("A1", "A2")):
+                    # the whole operand is handed to a callee: order(), size(), arcs(), ...
+                    callee = ev["fn"].get("resolved") if ev["fn"] else None
+                    if callee == path:
+                        continue
+                    return False
+    return True
 
 
 # ---------------------------------------------------------------------------
